@@ -158,5 +158,41 @@ def matched_endpoint(ctx, e):
     return zand(good, tm, ctx['rq'].method_is(e.method), e.contains(v))
 
 
+def native_case(m, ctx):
+    """the solver's model as a request to a real server built from the same table and version policy"""
+    eps, hv, vmax = ctx['eps'], ctx['hv'], ctx['vmax']
+    c = vermodel.concretise(m, [v for e in eps for v in e.versions()] + [hv, vmax])
+    lits = sorted({s for e in eps for k, s in e.tmpl if k == 'lit'})
+    req, _ = ctx['rq'].concretise(m, c, lits)
+    ev = lambda t: bool(m.eval(t, model_completion=True))
+    if ctx['policy'] == 'unversioned' or not ev(ctx['present']): header = None
+    elif not ev(ctx['ascii_ok']): header = 'non-ascii'
+    elif not ev(ctx['parses']): header = 'not-a-version'
+    else: header = c[hv.name]
+    return {'op': 'versioned_server', 'endpoints': [e.json(c) for e in eps], 'policy': ctx['policy'], 'max': c[vmax.name],
+            'requests': [{'method': req['method'], 'path': req['path'], 'header': header}]}
+
+
+def symbolic_outcome(ex, r):
+    """(handler id or None, status of the error answer or None) of one explored path"""
+    if r['calls']:
+        return r['calls'][0][0], 200
+    out, st = r['out'], None
+    if out.discr == 1 and ex.variant_name(ex.payload(out)) == 'Dropshot':
+        st = httpmodel.status_of(ex, ex.payload(out).fields[ex.payload(out).discr][0].v)
+    return None, st
+
+
+def native_agrees(chk, ex, m, ctx, r):
+    """(case, native answer, whether the real server does what the explored path says)"""
+    from mirsym.runner import replay
+    case = native_case(m, ctx)
+    nat = replay([case])[0]
+    hid, st = symbolic_outcome(ex, r)
+    resp = (nat.get('responses') or [{}])[0]
+    same = bool(nat.get('registered')) and resp.get('handler') == hid and (hid is not None or resp.get('status') == st)
+    return case, resp, same
+
+
 def load_models():
     return MODELS + AM.MODELS + vermodel.MODELS + RL.ROUTER_MODELS + BASE_MODELS
